@@ -286,7 +286,7 @@ pub fn run(rep: &mut Report) {
     let deep = !rep.quick();
     let q = false;
     let fl = lattice::fl(!q);
-    let dl = lattice::dl(if deep { 131_072 } else { 256 }, true);
+    let dl = lattice::dl(if deep { 131_072 } else { 16_384 }, true);
     rep.bound("FL_size", fl.len() as u64);
     rep.bound("DL_size", dl.len() as u64);
     rep.bound("ulp_tolerance", ULPS);
